@@ -401,6 +401,11 @@ func (x *Exec) debugRef(st *State, fr *Frame, d *ssa.DebugRef) {
 	if name == "" || name == "_" {
 		return
 	}
+	// the selector of a field access (x.f) is an identifier too: only variables that are not
+	// struct fields are source names of locals
+	if obj, ok := d.Object().(*types.Var); ok && obj.IsField() {
+		return
+	}
 	v := x.val(st, fr, d.X)
 	if d.IsAddr {
 		fr.names["&"+name] = v
